@@ -207,8 +207,8 @@ Definition ex_nested := run glob2 loc2 (tstep2 cx2 cy2) (init2 cx2 cy2 progs2) (
 Example ex_nested_inner_excludes :
   owner (gX (gl ex_nested)) = Some 0%nat /\ owner (gY (gl ex_nested)) = Some 0%nat /\
   in_excl_access cy2 (sysY ex_nested) 0 /\ open_write_window (sysY ex_nested) 0 /\
-  at_ (lY (nth 1 (thr ex_nested) (Loc2 [] init_loc init_loc None))) = GAcq (Modify 6) /\
-  tstep2 cx2 cy2 1 0 (gl ex_nested) (nth 1 (thr ex_nested) (Loc2 [] init_loc init_loc None)) = None.
+  at_ (lY (nth 1 (thr ex_nested) (Loc2 [] init_loc init_loc None false))) = GAcq (Modify 6) /\
+  tstep2 cx2 cy2 1 0 (gl ex_nested) (nth 1 (thr ex_nested) (Loc2 [] init_loc init_loc None false)) = None.
 Proof. vm_compute. repeat split; auto. Qed.
 Example ex_nested_finishes :
   let s := run glob2 loc2 (tstep2 cx2 cy2) ex_nested (rep 0 8 ++ rep 1 8) in
